@@ -19,7 +19,7 @@ from aiohomekit.exceptions import AccessoryDisconnectedError
 
 ID = "C08"
 RULE = ("interleavings on one connection under virtual time, EXHAUSTIVE to depth 5 (quick) / 6 (thorough) over {request issued by caller k, response delivered whole, response/event first part then remainder, "
-        "EVENT delivered, caller cancelled, advance 12 s / 31 s (30 s timer), peer closes, unsolicited response, reconnect} with up to 3 concurrent callers and concurrency limit 1..3, on a plain "
+        "EVENT delivered, caller cancelled, advance 12 s / 31 s (30 s timer), peer closes, local close(), unsolicited response, reconnect} with up to 3 concurrent callers and concurrency limit 1..3, on a plain "
         "HomeKitConnection and on the secure session of an IpPairing (real pair-verify, encrypted frames split at arbitrary byte offsets); plus random histories to length 40. "
         "non-trivial = distinct (variant, limit, history)")
 TRUSTED = ["harness/simnet.py: virtual-time loop, in-memory transport (no data is delivered after close(); an exception escaping data_received closes the transport, as asyncio's selector transport does)",
@@ -160,6 +160,10 @@ async def scenario(loop, variant, limit, events, seed):
             elif k == "pc":
                 if t is not None:
                     t.peer_close()
+            elif k == "lc":
+                # the connection is dropped locally (HomeKitConnection.close()): same abandonment as a peer close
+                if conn.is_connected:
+                    await conn.close()
             elif k == "R":
                 if not conn.is_connected:
                     net.connect_outcomes = ["ok"] + ["refused"] * 100000
@@ -279,15 +283,16 @@ def oracle(events, lines, limit):
 
 
 def model_line(limit, events):
-    return f"rq.run {limit} " + " ".join(events)
+    # a local close is the model's abandonment event too
+    return f"rq.run {limit} " + " ".join("pc" if e == "lc" else e for e in events)
 
 
 def gen_exhaustive(depth, rng, sample=None):
-    alpha = ["q", "r", "e:7", "hr", "he:9", "rest", "c", f"a:{12 * UNIT}", f"a:{31 * UNIT}", "pc", "R"]
+    alpha = ["q", "r", "e:7", "hr", "he:9", "rest", "c", f"a:{12 * UNIT}", f"a:{31 * UNIT}", "pc", "lc", "R"]
     seqs = []
     for d in range(1, depth + 1):
         for seq in itertools.product(alpha, repeat=d):
-            if seq[0] not in ("q", "r", "e:7", "pc", "hr", "he:9"):
+            if seq[0] not in ("q", "r", "e:7", "pc", "lc", "hr", "he:9"):
                 continue
             if sum(1 for x in seq if x == "q") > 3:
                 continue
@@ -340,8 +345,10 @@ def gen_random(rng):
             evs.append(f"c:{rng.randrange(1, rid + 1)}")
         elif r < 0.9:
             evs.append("a:%d" % rng.choice([UNIT, 12 * UNIT, 29 * UNIT, 31 * UNIT, 18 * UNIT + 2]))
-        elif r < 0.94:
+        elif r < 0.93:
             evs.append("pc")
+        elif r < 0.96:
+            evs.append("lc")
         else:
             evs.append("R")
     return evs
